@@ -12,15 +12,15 @@ import (
 )
 
 type blockAnchors struct {
-	worker     *ssa.Function // has a func() respValue and a func() *wakeSignal parameter
-	opParam    *ssa.Parameter
-	regParam   *ssa.Parameter
-	selectFn   *ssa.Function // contains the select (worker or a closure of it)
-	sel        *ssa.Select
-	wakeFn     *ssa.Function // sends on wakeSignal.ready
-	wakeRel    map[*ssa.Function]bool // release wrappers that wake before unlocking
-	fReady     *types.Var
-	errs       []string
+	worker   *ssa.Function // has a func() respValue and a func() *wakeSignal parameter
+	opParam  *ssa.Parameter
+	regParam *ssa.Parameter
+	selectFn *ssa.Function // contains the select (worker or a closure of it)
+	sel      *ssa.Select
+	wakeFn   *ssa.Function          // sends on wakeSignal.ready
+	wakeRel  map[*ssa.Function]bool // release wrappers that wake before unlocking
+	fReady   *types.Var
+	errs     []string
 }
 
 func (c *Ctx) blocking() *blockAnchors {
